@@ -21,7 +21,7 @@ Theorem C18_creds_confined :
       os = pre ++ Pull (Some r) (Some a) ok :: post
       /\ (forall o, In o post -> touches r o = false)
       /\ (c = true \/ In Connect pre)
-      /\ (a_sa a = SAEmpty \/ (a_sa a <> SAEmpty /\ url_host (a_sa a) = Some (alias host)))
+      /\ (sa_is_empty (a_sa a) = true \/ (sa_is_empty (a_sa a) = false /\ url_host (a_sa a) = Some (alias host)))
       /\ cred_of a = COk u s.
 Proof. exact creds_confined. Qed.
 Print Assumptions C18_creds_confined.
@@ -58,7 +58,7 @@ Print Assumptions C18_no_creds_for_another_reference.
 (* Never for a server address different from the host contacted; an address that does not parse is an error, not a
    credential. *)
 Theorem C18_no_creds_for_mismatching_server :
-  forall a host h, a_sa a <> SAEmpty -> url_host (a_sa a) = Some h -> h <> host ->
+  forall a host h, sa_is_empty (a_sa a) = false -> url_host (a_sa a) = Some h -> h <> host ->
     parse_auth (Some a) host = empty_cred.
 Proof. exact parse_auth_mismatch. Qed.
 Print Assumptions C18_no_creds_for_mismatching_server.
@@ -158,8 +158,8 @@ Theorem C18_secret_on_wire_follows_pull_server_address :
       kos = pre ++ Creds.Pull (Some r) (Some a) ok :: post
       /\ (forall o, In o post -> Creds.touches r o = false)
       /\ (c = true \/ In Creds.Connect pre)
-      /\ (Creds.a_sa a = Creds.SAEmpty
-          \/ (Creds.a_sa a <> Creds.SAEmpty /\ Creds.url_host (Creds.a_sa a) = Some (Creds.alias (name j)))).
+      /\ (Creds.sa_is_empty (Creds.a_sa a) = true
+          \/ (Creds.sa_is_empty (Creds.a_sa a) = false /\ Creds.url_host (Creds.a_sa a) = Some (Creds.alias (name j)))).
 Proof. exact secret_follows_pull. Qed.
 Print Assumptions C18_secret_on_wire_follows_pull_server_address.
 
@@ -193,6 +193,25 @@ Example C18_creds_nonvacuous :
   /\ credentials (Creds.exec (init true) os) (bs "evil.example") 2 = empty_cred
   /\ credentials (Creds.exec (init true) os) (bs "ghcr.io") 3 = empty_cred
   /\ credentials (Creds.exec (init true) (os ++ [Remove (Some 2) true])) (bs "ghcr.io") 2 = empty_cred.
+Proof. vm_compute. repeat split. Qed.
+
+(* the host named by a server address is compared VERBATIM with the host contacted: another port, no port, a default
+   port spelled out, another case, a trailing dot are all different hosts; userinfo, path, query and fragment do not
+   belong to the host *)
+Example C18_server_address_port_matters :
+  let a := mkAuth (SAText (bs "https://alice:x@registry.internal:5000/v2/?a=b#c")) (bs "alice") (bs "pw") [] (B64 []) in
+  let s := Creds.exec (init true) [Pull (Some 2) (Some a) true] in
+  credentials s (bs "registry.internal:5000") 2 = COk (bs "alice") (bs "pw")
+  /\ credentials s (bs "registry.internal:5001") 2 = empty_cred
+  /\ credentials s (bs "registry.internal") 2 = empty_cred
+  /\ credentials s (bs "registry.internal:8443") 2 = empty_cred
+  /\ credentials s (bs "REGISTRY.internal:5000") 2 = empty_cred
+  /\ credentials s (bs "registry.internal.:5000") 2 = empty_cred
+  /\ parse_url_host (bs "https://registry.internal:443") = Some (bs "registry.internal:443")
+  /\ parse_url_host (bs "https://[::1]:5000/") = Some (bs "[::1]:5000")
+  /\ parse_url_host (bs "registry.internal:5000") = Some []
+  /\ parse_url_host (bs "10.0.0.1:5000") = None
+  /\ parse_url_host (bs "https://registry.internal:50x0") = None.
 Proof. vm_compute. repeat split. Qed.
 
 (* a resolution that is redirected, and the schedule of the race on the fixed code: requests to the redirect location
